@@ -3,14 +3,14 @@
 and print the catch matrix (markdown) for DESIGN.md 12.6.
 
 Inputs: the sub-agents' output directories /tmp/mut{,2,3}-<PROP>-out/<k>/ and the screening table
-work/mut/results_final2.tsv (wave, property, k, viol=N, rules, summary) plus work/mut/extra_catches.tsv
+work/mut/results_final3.tsv (wave, property, k, viol=N, rules, summary) plus work/mut/extra_catches.tsv
 (wave, property, k, check, rules, note) for changes caught by another property's check or tier.
 """
 import glob, json, os, shutil, sys, re
 
 ROOT = '/verif'
 res = {}
-for line in open(f'{ROOT}/work/mut/results_final2.tsv'):
+for line in open(f'{ROOT}/work/mut/results_final3.tsv'):
     f = line.rstrip('\n').split('\t')
     if len(f) < 5:
         continue
